@@ -4,10 +4,11 @@
 D=$(readlink -f "$1"); shift
 S=$(mktemp -d /tmp/confirm.XXXXXX)
 cp -r /repo/mabwiser /repo/tests "$S/"
+mkdir -p "$S/_seed"; cp "$D/demo.py" "$S/_seed/demo.py"     # demos may locate the library relative to themselves
 cd "$S" || exit 2
-OMP_NUM_THREADS=1 PYTHONPATH="$S" /venv/bin/python "$D/demo.py" > "$S/without.out" 2>&1; a=$?
+OMP_NUM_THREADS=1 PYTHONPATH="$S" /venv/bin/python "$S/_seed/demo.py" > "$S/without.out" 2>&1; a=$?
 patch -s -p1 < "$D/patch.diff" || { echo "patch does not apply"; rm -rf "$S"; exit 2; }
-OMP_NUM_THREADS=1 PYTHONPATH="$S" /venv/bin/python "$D/demo.py" > "$S/with.out" 2>&1; b=$?
+OMP_NUM_THREADS=1 PYTHONPATH="$S" /venv/bin/python "$S/_seed/demo.py" > "$S/with.out" 2>&1; b=$?
 echo "demo without change exit=$a, with change exit=$b"
 if [ $# -gt 0 ]; then
   OMP_NUM_THREADS=1 PYTHONPATH="$S" /venv/bin/python -m pytest -q -p no:cacheprovider "$@" 2>&1 | tail -1
